@@ -53,6 +53,7 @@ type FuncContract struct {
 	Monitors     []MonitorSpec
 	Opaque       map[string]bool // callee names to treat as opaque events instead of inlining
 	Havocs       map[string][]string
+	Folds        map[string][]Clause // callee name -> invariants over the state its callback argument updates
 	Observes     []Clause // Label = name
 	ReplayAssume []Clause
 	Replay       string
@@ -439,6 +440,22 @@ func (db *ContractDB) parseFile(path, pkgPath string, trusted bool) error {
 					return fmt.Errorf("%s: %v", src, err)
 				}
 				cur.Lets = append(cur.Lets, Clause{Kind: "let", Label: name, Text: rest[i+1:], Expr: e, Src: src})
+			case "fold":
+				// fold <callee>: <invariant>   (iterator-style callee that only calls its function argument)
+				i := strings.Index(rest, ":")
+				if i < 0 {
+					return fmt.Errorf("%s: fold needs callee: invariant", src)
+				}
+				name := strings.TrimSpace(rest[:i])
+				label, text := splitLabel(rest[i+1:])
+				e, err := parseSpecExpr(text)
+				if err != nil {
+					return fmt.Errorf("%s: %v", src, err)
+				}
+				if cur.Folds == nil {
+					cur.Folds = map[string][]Clause{}
+				}
+				cur.Folds[name] = append(cur.Folds[name], Clause{Kind: "fold", Label: label, Text: text, Expr: e, Src: src})
 			case "observe":
 				i := strings.Index(rest, "=")
 				if i < 0 {
